@@ -238,7 +238,7 @@ func (g *SG) stmt(nest int, inLoop, mayReturn bool) []Stmt {
 		g.Stats["forrange_seq"]++
 		g.keyVar++
 		kv := fmt.Sprintf("k%d", g.keyVar)
-		c := []string{"VS", "VA", "H.SL", "VSS", "H.AR"}[r.Intn(5)]
+		c := []string{"VS", "VA", "H.SL", "VSS", "H.AR", "VE", "H.AW"}[r.Intn(7)]
 		body := []Stmt{g.tv(&Ref{kv}), g.tv(&Elem{Cont: c, KeyVar: kv})}
 		body = append(body, g.Block(nest+1, true, true)[1:]...)
 		return []Stmt{&ForRange{Key: kv, Cont: c, Body: body}}
@@ -246,7 +246,7 @@ func (g *SG) stmt(nest int, inLoop, mayReturn bool) []Stmt {
 		g.Stats["forrange_map"]++
 		g.keyVar++
 		kv := fmt.Sprintf("k%d", g.keyVar)
-		c := []string{"M64", "MIK", "H.MS", "MK8"}[r.Intn(4)]
+		c := []string{"M64", "MIK", "H.MS", "MK8", "ME"}[r.Intn(5)]
 		id := g.id()
 		g.BagIDs[id] = true
 		// order-insensitive body: one traced key, commutative integer accumulation
